@@ -33,6 +33,7 @@ SPEC_MODULES = {
     "C12": ["specs.c12_memory"],
     "C13": ["specs.c12_memory"],
     "C14": ["specs.c14_threads"],
+    "C15": ["specs.c15_portal"],
     "C16": ["specs.c16_buffered"],
     "C20": ["specs.c20_lru"],
 }
